@@ -308,6 +308,40 @@ def run_sequence(mname, seq):
                 got = probe(obj, "eval_dual")
                 if got[0] == "value":
                     probs.append(("resolve:stale-dual", "%s.eval_dual() returns a number although it was not part of the latest solve" % name))
+        # the dual tables of every function are those of the LATEST solve: readable, every constraint cell among what was
+        # just sent, every number the multiplier of the constraint at that cell (seeded change C13-m19)
+        from PEPit.function import Function as _F
+        for f in list(_F.list_of_functions):
+            if not f.get_is_leaf() or not getattr(f, "tables_of_constraints", None):
+                continue
+            fname = f.get_name() or "Function_%s" % f.counter
+            try:
+                duals = f.get_class_constraints_duals()
+            except Exception as e:
+                probs.append(("resolve:dual-tables-raise:%s" % type(e).__name__, "get_class_constraints_duals() of %s raised after a solve "
+                              "that returned a value: %s" % (fname, str(e)[:120])))
+                continue
+            for tname, dfc in f.tables_of_constraints.items():
+                dfd = duals.get(tname)
+                if dfd is None or tuple(dfd.shape) != tuple(dfc.shape):
+                    probs.append(("resolve:dual-table-shape", "table %s of %s: constraints %s, duals %s" % (tname, fname, dfc.shape, None if dfd is None else dfd.shape)))
+                    continue
+                bad = None
+                for i in range(dfc.shape[0]):
+                    for j in range(dfc.shape[1]):
+                        cell = dfc.iloc[i, j]
+                        if isinstance(cell, Constraint):
+                            if id(cell) not in sent_ids:
+                                bad = bad or ("resolve:dual-table-stale", "cell (%d,%d) of table %s of %s holds a constraint that was not part of the latest solve" % (i, j, tname, fname))
+                            else:
+                                try:
+                                    got = float(cell.eval_dual())
+                                except Exception as e:
+                                    got = type(e).__name__
+                                if isinstance(got, str) or not np.isclose(float(dfd.iloc[i, j]), got, rtol=0, atol=1e-12):
+                                    bad = bad or ("resolve:dual-table-value", "cell (%d,%d) of table %s of %s holds %r, the constraint's multiplier is %r" % (i, j, tname, fname, dfd.iloc[i, j], got))
+                if bad:
+                    probs.append(bad)
     elif rA["exc"] is None and rA["value"] is None:
         accessors_must_raise("resolve")
     # ---- freshly built equivalent model
